@@ -687,6 +687,7 @@ pub fn e2_spec(id: &str, tier: &str) -> Option<crate::e2::E2Spec> {
                     (progs::cyc3(kind), vec![vec![q(0)], vec![q(1)]]),
                     (progs::nested3(kind), vec![vec![q(0)], vec![q(2)]]),
                     (progs::cond_cycle(kind), vec![vec![q(2)], vec![q(1)]]),
+                    (progs::vdep_cycle(if kind == Kind::Fb { Kind::Fx } else { kind }), vec![vec![q(0)], vec![q(1)]]),
                 ];
                 for (p, th) in two {
                     scens.push(Scen {
